@@ -266,7 +266,34 @@ def fuzz_custom(tier, seed, shard, nshards, stats, rec):
     stats.note({"shard": shard, "seeded": bool(seeds)}, True, classes=["atheris_campaign_seeded" if seeds else "atheris_campaign_empty_corpus"])
 
 
+def large_enumerate(tier, shard, nshards):
+    from ..runner import shard_iter
+
+    def gen():
+        for hsize in (16000, 49152, 65400, 65500, 65520, 65530, 65536, 65560, 100000, 300000):
+            yield {"kind": "request", "hsize": hsize, "bsize": 10}
+            yield {"kind": "response", "hsize": hsize, "bsize": 70000}
+        yield {"kind": "request", "hsize": 20, "bsize": 300000}
+
+    return shard_iter(gen(), shard, nshards)
+
+
+def large_execute(case, stats):
+    """Messages whose header block or body is large (around and beyond 64 KiB)."""
+    from ..runner import Stats
+
+    big = (b"QUJD" * (case["hsize"] // 4 + 1))[: case["hsize"]]
+    hdrs = [(b"Host", b"example.com"), (b"Cookie", big), (b"X-After", b"1")]
+    body = (b"\x00\r\n\r\nBODY" * (case["bsize"] // 10 + 1))[: case["bsize"]]
+    if case["kind"] == "request":
+        request_execute({"method": b"POST", "path": b"/submit.php", "params": [(b"id", b"1234")], "headers": hdrs, "body": body, "space_plus": False, "lower_hex": False, "version": b"HTTP/1.1"}, Stats())
+    else:
+        response_execute({"status": 200, "reason": b"OK", "headers": hdrs, "body": body, "version": b"HTTP/1.1"}, Stats())
+    stats.note(case, True, classes=["large_" + case["kind"]])
+
+
 SUBS = [
+    Sub("large_messages", large_execute, enumerate=large_enumerate, exhaustive=True),
     Sub("atheris_parts_and_raw", fuzz_execute, custom=fuzz_custom, shards={"quick": 1, "thorough": 4}),
     Sub("requests", request_execute, strategy=request_strategy, examples={"quick": 6400, "thorough": 128000}),
     Sub("responses", response_execute, strategy=response_strategy, examples={"quick": 3200, "thorough": 64000}),
